@@ -274,6 +274,12 @@ pub fn check_type<T: Build + Spec + MemSize + 'static>(seed: u64, rounds: u64, o
     out.per_type.push((name, n_eval));
 }
 
+/// A user-defined unsized type with its own `ValueSize` (the trait has no blanket impl for unsized types): the declared
+/// value size is the packed size, not `size_of_val` (which includes trailing padding).
+pub struct Rec<T: ?Sized> { pub tag: u32, pub payload: T }
+impl ValueSize for Rec<[u8]> { fn value_size(&self) -> usize { 4 + self.payload.len() } }
+impl HeapSize for Rec<[u8]> { fn heap_size(&self) -> usize { 0 } }
+
 /// forwards the items of `inner`, reports the given size_hint whatever `inner` knows
 struct WrongHint<I> { inner: I, lo: usize, hi: Option<usize> }
 impl<I: Iterator> Iterator for WrongHint<I> { type Item = I::Item; fn next(&mut self) -> Option<I::Item> { self.inner.next() } fn size_hint(&self) -> (usize, Option<usize>) { (self.lo, self.hi) } }
@@ -340,6 +346,15 @@ fn check_unsized(seed: u64, rounds: u64, out: &mut MsOut) {
         let want_v: u128 = cs.iter().map(|b| b.to_bytes_with_nul().len() as u128).sum();
         out.stats.eval("C08", mix(&[973, cs.len() as u64]));
         if <CStr>::value_size_sum_iter(cs.iter().map(|b| &**b)) as u128 != want_v || <CStr>::value_size_sum_exact_size_iter(cs.iter().map(|b| &**b)) as u128 != want_v { viol(out, "C08", "bulk-unsized:CStr", "CStr bulk helpers disagree with element-wise sums".to_string()); }
+        // Box<user DST>: the box adds up the parts its pointee DECLARES (value_size + heap_size), alone and in bulk
+        let recs: Vec<Box<Rec<[u8]>>> = (0..r.usize_below(6)).map(|i| -> Box<Rec<[u8]>> { match (i + r.usize_below(4)) % 4 { 0 => Box::new(Rec { tag: 1, payload: [0u8; 0] }), 1 => Box::new(Rec { tag: 2, payload: [7u8; 5] }), 2 => Box::new(Rec { tag: 3, payload: [1u8; 8] }), _ => Box::new(Rec { tag: 4, payload: [9u8; 13] }) } }).collect();
+        let want: u128 = recs.iter().map(|b| ((**b).value_size() + (**b).heap_size()) as u128).sum();
+        out.stats.eval("C08", mix(&[975, recs.len() as u64]));
+        out.stats.count("c08_boxes_of_user_defined_unsized_types");
+        let each: u128 = recs.iter().map(|b| b.heap_size() as u128).sum();
+        let bulk = <Box<Rec<[u8]>>>::heap_size_sum_iter(|| recs.iter()) as u128;
+        let bulk_e = <Box<Rec<[u8]>>>::heap_size_sum_exact_size_iter(|| recs.iter()) as u128;
+        if each != want || bulk != want || bulk_e != want { viol(out, "C08", "law:Box<user DST>", format!("Box<Rec<[u8]>> x {}: heap_size() summed = {}, bulk helpers = {} / {}, value_size + heap_size of the pointees = {}", recs.len(), each, bulk, bulk_e, want)); }
         // OsStr only has a value size (it is what an OsString's buffer holds)
         let os: Vec<OsString> = (0..r.usize_below(7)).map(|_| Build::build(&mut r, 1)).collect();
         let want_v: u128 = os.iter().map(|b| b.as_os_str().len() as u128).sum();
